@@ -60,6 +60,10 @@ type ResponderInterceptor struct {
 
 	streams   map[uint32]*localStream
 	streamsMu sync.Mutex
+
+	// resends tracks the retransmission goroutines so that Close can wait for them
+	resends sync.WaitGroup
+	closed  bool
 }
 
 type localStream struct {
@@ -95,7 +99,19 @@ func (n *ResponderInterceptor) BindRTCPReader(reader interceptor.RTCPReader) int
 				continue
 			}
 
-			go n.resendPackets(nack)
+			n.streamsMu.Lock()
+			if n.closed {
+				n.streamsMu.Unlock()
+
+				continue
+			}
+			n.resends.Add(1)
+			n.streamsMu.Unlock()
+
+			go func() {
+				defer n.resends.Done()
+				n.resendPackets(nack)
+			}()
 		}
 
 		return i, attr, err
@@ -158,7 +174,11 @@ func (n *ResponderInterceptor) UnbindLocalStream(info *interceptor.StreamInfo) {
 
 // Close releases all resources held by the ResponderInterceptor.
 func (n *ResponderInterceptor) Close() error {
+	// wait for retransmissions in flight: nothing is written after Close returns
+	defer n.resends.Wait()
+
 	n.streamsMu.Lock()
+	n.closed = true
 	streams := n.streams
 	n.streams = map[uint32]*localStream{}
 	n.streamsMu.Unlock()
